@@ -29,10 +29,14 @@ def make_cases(ctx, cid, en):
     top = max(v for _, v in decl)
     lo, khi = enumgen.krange(en["kind"])
     hi = min(1 << (top.bit_length() + 1), khi + 1, 1 << 12)
+    negs = []
+    if lo < 0:       # signed kinds: a few negative values (the `x < 0` arm of String)
+        negs = sorted(set([-1, -2, lo, lo + 1, -top, -top - 1, -(top << 1)] + [-v for _, v in decl if v]))
+        negs = [v for v in negs if lo <= v < 0]
     main = {"id": cid, "en": en, "decl": decl, "files": enumgen.render_files(en),
             "runs": [{"args": ["enum", "-bit", "-type=" + T]}],
-            "oracle": {".": enumgen.oracle_c14(en, decl, hi)},
-            "sexp": enumgen.case_sexp(cid, "c14", en, [["hi", str(hi)]]), "cmd": "shoot enum -bit -type=" + T,
+            "oracle": {".": enumgen.oracle_c14(en, decl, hi, negs)},
+            "sexp": enumgen.case_sexp(cid, "c14", en, [["hi", str(hi)], ["neg"] + [str(v) for v in negs]]), "cmd": "shoot enum -bit -type=" + T,
             "hi": hi, "kind": "main"}
     raw = {"id": cid + "r", "en": en, "decl": decl, "sexp": enumgen.case_sexp(cid + "r", "c14raw", en, []),
            "cmd": "shoot enum -bit -type=%s && go build" % T, "kind": "raw"}
@@ -57,7 +61,7 @@ def gen_cases(ctx):
     ens = [en for en, _ in enumgen.load_corpus(PROP)]
     ens += [g.bits("wf", f) for f in SHAPED]
     ens += [g.bits("odd") for _ in range(3)]
-    n = ctx.n(40, 500) + len(enumgen.load_corpus(PROP))
+    n = ctx.n(60, 500) + len(enumgen.load_corpus(PROP))
     while len(ens) < n:
         ens.append(g.bits("wf" if ctx.rng.random() < 0.93 else "odd",
                           ctx.rng.choice(SHAPED) if ctx.rng.random() < 0.3 else None))
